@@ -291,7 +291,7 @@ impl C13 {
             }
             // spelling of command-line targets is chosen by InvSpec.spell through respell(); use our own deep respelling by
             // writing the name directly
-            let mut spec = InvSpec { j: 2, targets, spell: 0, ..InvSpec::default() };
+            let mut spec = InvSpec { j: 2, targets, spell: 0, abs_reports: true, ..InvSpec::default() };
             if round == 0 {
                 spec.targets = vec![mid.clone()];
                 spec.spell = 4 * t.below(3) + [1, 2, 3][t.below(3)];
